@@ -5,7 +5,17 @@
     satisfy the laws.  Proofs/LawsOsfs.v establishes the laws for the
     concrete layered OS filesystem model (so that the end results are closed
     theorems); the laws are exactly what the correspondence check validates
-    against the real kernel and the real wrapper layers. *)
+    against the real kernel and the real wrapper layers.
+
+    [hid] / [anc]: what the filesystem hides (HiddenFS): view paths at or
+    below a hidden location, and the proper ancestors of one.  Creation is
+    promised outside [hid] only, removal of an entry without children in the
+    view for entries outside [anc] only (a proper ancestor of a hidden location
+    has the location inside).  For a filesystem that hides nothing both are
+    [nohid] and the laws are the ones of the generic layering
+    (Proofs/LawsOsfs.v); Proofs/LawsHidden*.v instantiate them for the
+    documented layering (base = HiddenFS over PrefixFS, the backup location
+    inside the base tree). *)
 From stdpp Require Import gmap.
 From BFS Require Export Spec.View.
 
@@ -17,6 +27,8 @@ Section Laws.
   Variable accepts : str -> str -> Prop.   (* (target, location) pairs Symlink does not refuse *)
   Variable rh : fhandle -> str -> nat -> Prop.  (* read handle on path at offset *)
   Variable wh : fhandle -> str -> nat -> Prop.  (* write handle on path positioned at offset (= current length) *)
+  Variable hid : str -> Prop.         (* view paths at or below a location this filesystem hides (HiddenFS) *)
+  Variable anc : str -> Prop.         (* proper ancestors of such a location *)
 
   (** the call succeeds with result [x]; afterwards the view is [s'] *)
   Definition ok_step {A} (m : M A) (w : world) (x : A) (s' : store) : Prop :=
@@ -74,6 +86,7 @@ Section Laws.
 
     (** ** the calls copies are made of (precise) *)
     law_mkdirall_new : forall w p perm, quiet w -> swf (V w) -> sdirect (V w) p -> V w !! p = None ->
+      ~ hid p ->
       exists m' s', ok_step (a_mkdirall a p perm) w tt s' /\ s' !! p = Some (Dir m') /\
                     store_eqv_except [p] s' (V w) /\ swf s';
     law_mkdirall_dir : forall w p perm m, quiet w -> swf (V w) -> sdirect (V w) p -> V w !! p = Some (Dir m) ->
@@ -87,11 +100,12 @@ Section Laws.
     law_lchown : forall w p u g n, quiet w -> swf (V w) -> snolinkpar (V w) p -> V w !! p = Some n ->
       ok_step (a_lchown a p u g) w tt (<[ p := chown_node n u g ]> (V w));
     law_symlink : forall w t p, quiet w -> swf (V w) -> sdirect (V w) p -> V w !! p = None ->
-      t <> [] -> accepts t p ->
+      t <> [] -> accepts t p -> ~ hid p ->
       exists m' s', ok_step (a_symlink a t p) w tt s' /\ s' !! p = Some (Link m' (tnorm t)) /\
                     m_perm m' = 511 /\ store_eqv_except [p] s' (V w) /\ swf s';
     (** create or truncate a regular file for writing (flags O_RDWR|O_CREATE|O_TRUNC) *)
     law_openfile_new : forall w p perm, quiet w -> swf (V w) -> sdirect (V w) p -> V w !! p = None ->
+      ~ hid p ->
       exists h m' s', ok_step (a_openfile a p 578 perm) w h s' /\ wh h p 0 /\ s' !! p = Some (File m' []) /\
                       store_eqv_except [p] s' (V w) /\ swf s';
     law_openfile_trunc : forall w p perm m c, quiet w -> swf (V w) -> snolinkpar (V w) p -> V w !! p = Some (File m c) ->
@@ -101,7 +115,7 @@ Section Laws.
                     wh h' p (pos + length data);
     law_hclose_w : forall w h p pos, quiet w -> wh h p pos -> ok_step (hclose h) w tt (V w);
     law_remove_leaf : forall w p n, quiet w -> swf (V w) -> snolinkpar (V w) p -> V w !! p = Some n ->
-      no_children (V w) p -> p <> s_root ->
+      no_children (V w) p -> p <> s_root -> ~ anc p ->
       exists s', ok_step (a_remove a p) w tt s' /\ s' !! p = None /\ store_eqv_except [p] s' (V w) /\ swf s';
     (** RemoveAll of a non-directory is Remove *)
     law_removeall_leaf : forall w p n, quiet w -> swf (V w) -> snolinkpar (V w) p -> V w !! p = Some n ->
@@ -134,6 +148,30 @@ Section Laws.
     law_user_symlink : forall w t p, quiet w -> swf (V w) -> snolinkpar (V w) p -> framed (a_symlink a t p) w [p];
 
     (** ** link targets *)
-    law_tnorm_idem : forall t, tnorm (tnorm t) = tnorm t
+    law_tnorm_idem : forall t, tnorm (tnorm t) = tnorm t;
+
+    (** ** hidden locations (HiddenFS): the view never shows hidden content;
+        the proper ancestors of a hidden location are always there, as
+        directories, and cannot be removed (the hidden location is inside).
+        For a filesystem that hides nothing [hid] and [anc] are empty
+        ([nohid]) and these four fields are trivial. *)
+    law_hid_absent : forall w p, hid p -> V w !! p = None;
+    law_anc_dir : forall w p, anc p -> swf (V w) -> sdir (V w) p;
+    law_remove_anc : forall w p, quiet w -> swf (V w) -> anc p -> err_step (a_remove a p) w any_err;
+    law_anc_dec : forall p, anc p \/ ~ anc p
   }.
 End Laws.
+
+(** nothing is hidden *)
+Definition nohid : str -> Prop := fun _ => False.
+Lemma not_nohid (p : str) : ~ nohid p.
+Proof. intros []. Qed.
+
+(** what the store a transaction begins with has to satisfy with respect to
+    the hidden locations of the base (it does, when it is the base view of an
+    [initial] state: [law_hid_absent], [law_anc_dir]) *)
+Definition loc_ok (hid anc : str -> Prop) (s : store) : Prop :=
+  (forall p, hid p -> s !! p = None) /\ (forall p, anc p -> sdir s p).
+
+Lemma loc_ok_nohid (s : store) : loc_ok nohid nohid s.
+Proof. split; intros p []. Qed.
